@@ -10,6 +10,18 @@ CHECKS = {
          "Every ordered endpoint pair on a 5x5 (thorough 6x6) lattice, zero-length included, against every half-step probe point and every other segment, in both operand orders, repeated under 5 exact float transforms (2^17, 2^-10, +-2^20 offsets, dyadic offset): raycast on/in, contains-point, collinear-point, intersects (exact + symmetric), contains-segment compared with integer orientation predicates. Complete enumeration, no sampling.",
          "Small-scope: all order types of (segment, point) and (segment, segment) configurations incl. 4 collinear points occur on a 5x5 lattice; coordinates outside the dyadic <=2^20 domain are not covered. Trusted: verif/mc/exact (two formulations cross-checked each run).",
          "DESIGN.md §3 C19"),
+ "C13": ("bounded exhaustive enumeration of a numeric lattice (centres x radii x bearings x distance factors x operand kinds/orders; all step counts) on the real Circle code vs an independent vector great-circle model with the stated tolerance band",
+         "Full product of 7 (thorough 10) centres incl. poles and antimeridian x 12 (16) radii from 0 to half the circumference x bearings every 15 (3) degrees x distance factors {0, .5, 1-1e-4, 1-3e-8, 1+3e-8, 1+1e-4, 1.5}: Point and SimplePoint, contains and intersects, both operand orders, must agree with each other and with the reference distance outside the band max(1 mm, 1e-8 r); monotone in the radius; circle-circle contains/intersects over the same grid x radius alphabet; JSON form and re-parse for radii incl. negative, NaN, Inf, 3piR x every step count -1..4096; polygon approximation closed, right vertex count, rectangle contains the centre.",
+         "Decided on the numeric lattice only (continuum claim). Sphere radius 6371e3 m. Trusted: verif/mc/sphere (unit vectors, atan2).",
+         "DESIGN.md §3 C13"),
+ "C14": ("bounded exhaustive enumeration of a numeric lattice (latitudes incl. +-4 ulp pole-tangent values x longitudes x radii x probe bearings x distance fractions) on the real RectFromCenter vs an independent destination-point model",
+         "Full product of 10 (17) latitudes plus, for every radius, the latitudes at which the disc touches the pole within +-4 ulp x 7 (12) longitudes incl. +-180 and +-179.999 x 14 (18) radii from 0 to half the circumference x probe bearings every 5 (1) degrees plus tangent bearings x distance fractions {1, .999, .5}: the reference destination lies inside the rectangle (1 cm), no NaN, world bounds, full longitude range when the disc reaches a pole or crosses the antimeridian, degenerate rectangle for unresolvable radii.",
+         "Decided on the numeric lattice only. Trusted: verif/mc/sphere.",
+         "DESIGN.md §3 C14"),
+ "C15": ("bounded exhaustive enumeration of a numeric lattice (location pairs incl. antipodes, location x bearing x distance) on the real geo primitives vs an independent vector formulation",
+         "Every ordered pair of 84 (308) locations incl. poles, near-pole, antimeridian and each location's exact antipode: distance range, symmetry, zero, agreement with the vector formulation; every location x 26 (362) bearings x 12 (19) distances: destination in range, distance back = d (max(1 mm, 1e-6 d)), initial bearing recovered (conditioning-scaled) away from poles/antipode; haversine monotone and metre round trip along the sorted distance alphabet; normalisation idempotent and haversine-preserving; semicircle round trip on a 65,537-point grid.",
+         "Decided on the numeric lattice only. Known finding: DestinationPoint within ~5 m of a pole (exact inputs listed). Trusted: verif/mc/sphere.",
+         "DESIGN.md §3 C15"),
  "C09": ("bounded exhaustive enumeration of ordered object pairs over a pool of all 12 kinds on the real predicates; algebraic laws and representation transparency (oracle-free)",
          "Every ordered pair of a pool (1,100 quick / 3,500 thorough objects: lattice points as Point/SimplePoint/Feature, all rectangles with their 5-point polygons, 2- and 3-position lines, simple rings, polygons with holes, empties, Multi*/GeometryCollection/FeatureCollection/Feature wraps incl. nested, circles with probes between the 64-gon and the disc and a high-latitude circle): Within/Contains duality, Intersects symmetry, contains => intersects and rect cover, intersects => rects meet, reflexivity, Feature = geometry, Rect = 5-point Polygon, SimplePoint = Point, leaf object = geometry-level predicate.",
          "No geometry oracle here (C01-C03 own that); law violations that are consequences of listed leaf defects are listed by exact pair.",
